@@ -198,6 +198,15 @@ def run(ctx):
                     run.instance(R3, {"fn": "try_decrypt_payload", "obligation": "self.%s := the decrypted value only (no clear-text envelope field, no other source)" % ".".join(path), "producers": sorted(map(str, pr))[:6]}, held=h)
                     if not h:
                         run.finding(Finding(R3, DEC, "self.%s after decryption does not come solely from the decrypted data" % ".".join(path), site=c.site_of(d, b), detail=str(sorted(map(str, pr)))[:300]))
+            # ... and it is written back unconditionally: no path reaches mode = 0 keeping the clear-text envelope's
+            # own sender / payload (an inserted outer `sender` would otherwise survive decryption unnoticed)
+            m0 = {b for b, _s in assigns(d, ["mode"])}
+            for path in (["payload"], ["sender"]):
+                ed = {(b, x) for b, _s in assigns(d, path) for x in d.succ(b)}
+                h = bool(ed) and bool(m0) and cfg.must_pass(d, ed, m0)[0]
+                run.instance(R3, {"fn": "try_decrypt_payload", "obligation": "every path to mode = 0 overwrites self.%s with the decrypted value" % ".".join(path)}, held=h)
+                if not h:
+                    run.finding(Finding(R3, DEC, "mode = 0 is reachable with self.%s still holding the clear-text envelope's value" % ".".join(path), site=d.loc()))
             # every read from the decrypting stream propagates its error (a failed chunk tag is an error, not end of data)
             reads = [(b, t) for b, t in d.calls() if (t.get("f") or "").startswith("std::io::Read::")]
             for b, t in reads:
